@@ -7,8 +7,20 @@
 use super::err::{new_error, update_last_error};
 use super::ResultType;
 use crate::haystack::val::{Date, Time, Value};
+use chrono::{NaiveDateTime, Offset};
 use std::ffi::CString;
 use std::os::raw::c_char;
+
+/// The UTC or the local date and time of a timestamp; None if the local one can't be represented.
+fn naive_date_time(datetime: &crate::haystack::val::DateTime, utc: bool) -> Option<NaiveDateTime> {
+    if utc {
+        Some(datetime.naive_utc())
+    } else {
+        datetime
+            .naive_utc()
+            .checked_add_offset(datetime.offset().fix())
+    }
+}
 
 /// Get the date of a [DateTime](crate::val::DateTime) [Value](crate::val::Value)
 /// # Arguments
@@ -53,10 +65,10 @@ pub unsafe extern "C" fn haystack_value_get_datetime_date(
     match val.as_ref() {
         Some(value) => match value {
             Value::DateTime(datetime) => {
-                let date = if utc {
-                    datetime.naive_utc().date()
-                } else {
-                    datetime.naive_local().date()
+                // The local date of a timestamp at the edge of the supported range can be out of range
+                let Some(date) = naive_date_time(datetime, utc).map(|naive| naive.date()) else {
+                    new_error("Local date is out of range");
+                    return ResultType::ERR;
                 };
                 if let Some(value) = result.as_mut() {
                     *value = Date::from(date).into();
@@ -111,10 +123,9 @@ pub unsafe extern "C" fn haystack_value_get_datetime_time(
     match val.as_ref() {
         Some(value) => match value {
             Value::DateTime(datetime) => {
-                let time = if utc {
-                    datetime.naive_utc().time()
-                } else {
-                    datetime.naive_local().time()
+                let Some(time) = naive_date_time(datetime, utc).map(|naive| naive.time()) else {
+                    new_error("Local time is out of range");
+                    return ResultType::ERR;
                 };
                 if let Some(value) = result.as_mut() {
                     *value = Time::from(time).into();
